@@ -28,7 +28,7 @@ PEER = lambda cid: ("127.0.0.1", 40000 + cid)
 
 BAD_KINDS = ["not-json", "json-number", "json-list", "no-action-type", "no-parameters", "unknown-type",
              "unknown-param", "param-wrong-shape", "invalid-ip", "missing-required", "undecodable-bytes",
-             "invalid-network", "empty", "params-not-dict", "extra-field-in-value", "invalid-utf8-in-json", "invalid-utf8-in-json", "reset-bad-flag", "reset-bad-flag", "reset-unknown-param", "join-wrong-shape"]
+             "invalid-network", "empty", "params-not-dict", "extra-field-in-value", "invalid-utf8-in-json", "invalid-utf8-in-json", "reset-bad-flag", "reset-bad-flag", "reset-unknown-param", "join-wrong-shape", "network-mask-not-int"]
 
 
 def bad_message(kind, rng):
@@ -70,6 +70,8 @@ def bad_message(kind, rng):
         return good[:i] + rng.choice([b"\xff\xfe", b"\xc3", b"\x80"]) + good[i:]
     if kind == "extra-field-in-value":
         return json.dumps({"action_type": "ActionType.FindServices", "parameters": {"source_host": {"ip": "192.168.2.2", "x": 1}, "target_host": src}}).encode()
+    if kind == "network-mask-not-int":
+        return json.dumps({"action_type": "ActionType.ScanNetwork", "parameters": {"source_host": src, "target_network": {"ip": "192.168.1.0", "mask": rng.choice(["24", True, 24.9, None, [24]])}}}).encode()
     if kind == "reset-bad-flag":     # the value is not the text of a boolean
         return json.dumps({"action_type": "ActionType.ResetGame", "parameters": {"request_trajectory": rng.choice(["maybe", "1", "yes", "None", "[1, 2]", "true ", "'True'"])}}).encode()
     if kind == "reset-unknown-param":
@@ -87,13 +89,15 @@ def gen_config(rng, scenario="scenario1_small"):
     rewards = rng.choice([{"step": -1, "success": 100, "fail": -10}, {"step": 0, "success": 7, "fail": -3},
                           {"step": -2, "success": 50}, {}, {"step": 1, "success": 0, "fail": 5},
                           {"success": 70, "fail": -7}, {"step": -1, "fail": -10}, {"fail": -4},
-                          {"step": -0.5, "success": 10.5, "fail": -2.25}, {"step": -0.25, "fail": -1.5}])
-    goal_kind = rng.choice(["data", "known_host", "controlled", "network", "trivial", "services", "blocks", "data2", "data3", "data3r", "blocks2", "blocks2r", "hosts2"])
+                          {"step": -0.5, "success": 10.5, "fail": -2.25}, {"step": -0.25, "fail": -1.5}, {"step": -0.125, "success": 3.375, "fail": -0.625}])
+    goal_kind = rng.choice(["data", "known_host", "controlled", "network", "trivial", "services", "blocks", "data2", "data3", "data3r", "data_empty", "blocks2", "blocks2r", "hosts2"])
     goal = {"known_networks": [], "known_hosts": [], "controlled_hosts": [], "known_services": {}, "known_data": {}, "known_blocks": {}}
     if goal_kind == "data":
         goal["known_data"] = {"213.47.23.195": [["User1", "DataFromServer1"]]}
     elif goal_kind == "data2":
         goal["known_data"] = {"213.47.23.195": [["User1", "DataFromServer1"]], "192.168.1.2": [["User2", "Data2FromServer1"]]}
+    elif goal_kind == "data_empty":
+        goal["known_data"] = {"213.47.23.195": []}          # "some entry for this host": met by the first datapoint brought there
     elif goal_kind == "data3":
         goal["known_data"] = {"213.47.23.195": [["User1", "DataFromServer1"], ["User2", "Data2FromServer1"]]}
     elif goal_kind == "data3r":
@@ -124,7 +128,7 @@ def gen_config(rng, scenario="scenario1_small"):
                                                                       "known_services": {}, "known_data": start_data, "known_blocks": {}}}
     if ms_att is not None:
         att["max_steps"] = ms_att
-    dfd = {"goal": dict(dgoal, description="defend"), "start_position": {"known_networks": [], "known_hosts": [], "controlled_hosts": rng.choice([["192.168.1.2"], ["192.168.1.2", "192.168.2.2"], ["all_local"]]),
+    dfd = {"goal": dict(dgoal, description="defend"), "start_position": {"known_networks": [], "known_hosts": [], "controlled_hosts": rng.choice([["192.168.1.2"], ["192.168.1.2"], ["192.168.1.2", "192.168.2.2"], ["192.168.1.2", "192.168.2.2"], ["all_local"], ["all_local"], []]),
                                                                          "known_services": {}, "known_data": {}, "known_blocks": {}}}
     if ms_def is not None:
         dfd["max_steps"] = ms_def
@@ -157,11 +161,11 @@ def goal2j(g):
             "blocks": [[C.ip2n(k), [C.ip2n(x) for x in v]] for k, v in g["known_blocks"].items()]}
 
 
-REWARD_SCALE = 4   # configured rewards may be multiples of 1/4; the model (integers) sees them times 4
+REWARD_SCALE = 8   # configured rewards may be multiples of 1/8; the model (integers) sees them times 8
 
 
 def scaled(x):
-    """a real reward in the model's unit (exact for multiples of 1/4; anything else stays a float and mismatches)"""
+    """a real reward in the model's unit (exact for multiples of 1/8; anything else stays a float and mismatches)"""
     if isinstance(x, bool) or not isinstance(x, (int, float)):
         return x
     y = x * REWARD_SCALE
@@ -228,6 +232,7 @@ class Session:
 
     def __init__(self, drv, rng, cfg, defender_tables, fail, stats, label=""):
         self.drv, self.rng, self.cfg, self.fail, self.stats, self.label = drv, rng, cfg, fail, stats, label
+        self.cfg0 = copy.deepcopy(cfg)
         self.sim = Sim(cfg)
         self.coord = self.sim.coord
         self.events = []          # replayable log
@@ -806,6 +811,14 @@ class Session:
                 continue
             c = o["c"]
             role = co.agents.get(PEER(c), (None, None))[1]
+            if role == "Benign" and getattr(co, "hosts_to_start", None):
+                try:
+                    vb = GameState.from_dict(o["raw"]["observation"]["state"])
+                    if not vb.controlled_hosts or any(x not in co._ip_to_hostname for x in vb.controlled_hosts):
+                        self.fail({"C11", "C19"} | ({"C07"} if o["code"] == "RESET_DONE" else set()), f"benign-start-view:{o['code']}",
+                                  f"the initial view sent with {o['code']} to the Benign agent on {c} controls {sorted(map(str, vb.controlled_hosts))} (start hosts of the scenario: {sorted(set(map(str, co.hosts_to_start)))})", self.replay())
+                except Exception:
+                    pass
             if role not in ("Attacker", "Defender"):
                 continue
             try:
@@ -828,6 +841,24 @@ class Session:
             # a reset that completed during this event re-labelled the goals (its RESET_DONE may have been lost with a
             # failing connection): the model continues with the goals the coordinator uses now
             cur = settings_of(self.coord)
+            if any(o.get("code") == "RESET_DONE" for o in real_outs):
+                for role in ("Attacker", "Defender"):
+                    gw = goal_as_written(self.cfg0["coordinator"]["agents"][role]["goal"])
+                    if gw is None:
+                        continue
+                    try:
+                        mi, mn = co._ip_mapping, co._network_mapping
+                        gm = {"known_networks": {mn.get(n, n) for n in gw["known_networks"]},
+                              "known_hosts": {mi.get(x, x) for x in gw["known_hosts"]}, "controlled_hosts": {mi.get(x, x) for x in gw["controlled_hosts"]},
+                              "known_services": {mi.get(k, k): v for k, v in gw["known_services"].items()},
+                              "known_data": {mi.get(k, k): v for k, v in gw["known_data"].items()},
+                              "known_blocks": {mi.get(k, k): {mi.get(x, x) for x in v} for k, v in gw["known_blocks"].items()}}
+                        if canon_goal(goal2j(gm)) != canon_goal(cur["goal"][role]):
+                            self.fail({"C04", "C13", "C19"}, "goal-not-relabelled", f"after a re-labelling reset the {role} goal the game checks ({cur['goal'][role]}) is not the configured goal "
+                                      f"under the published address maps ({goal2j(gm)})", self.replay())
+                            cur["goal"][role] = goal2j(gm)
+                    except Exception:
+                        pass
             if cur["goal"] != self.settings["goal"]:
                 self.settings = cur
                 self.drv.ask({"op": "coord_settings", "settings": self.settings})
@@ -997,7 +1028,7 @@ class Script:
             if k == "quit":
                 return {"t": "msg", "c": cid, "m": {"k": "quit"}, "raw_bytes": J(ActionType.QuitGame)}
             if k == "arm":
-                return {"t": "arm", "c": cid, "drain": False}
+                return {"t": "arm", "c": cid, "drain": rng.random() < 0.4}
             if k == "eof-while-waiting":
                 w = [c for c in live if c in s.awaiting and c not in s.pending_leave]
                 if w:
@@ -1192,6 +1223,8 @@ def directed_sessions(drv, rng, defender_tables, on_fail, stats, n):
             tail = [leave, ev_reset(1, rng.random() < 0.5)] if order == "leave-then-reset" else [ev_reset(1, rng.random() < 0.5), leave]
             for e in tail:
                 sess.do(e)
+            if sess.settings["storeTraj"] and not sess.diverged and not sess.broken:
+                check_files(sess, on_fail, stats)
             # a replacement joins: the reset completes / the new episode starts; both play a little
             sess.do({"t": "connect", "c": 2})
             sess.do(ev_join(2, modifier_role))
@@ -1222,12 +1255,14 @@ def directed_races(drv, rng, defender_tables, on_fail, stats, n):
         return {"t": "msg", "c": cid, "m": {"k": "reset", "traj": tr}, "raw_bytes": J(ActionType.ResetGame, request_trajectory=tr)}
     scan = lambda: Action(ActionType.ScanNetwork, {"source_host": IP("192.168.2.2"), "target_network": Network("192.168.1.0", 24)})
     for i in range(n):
-        kind = "a" if i % 2 == 0 else "b"
+        kind = "abc"[i % 3]
         cfg = gen_config(rng)
         cfg["env"].update({"required_players": 2, "use_dynamic_addresses": kind == "b", "use_firewall": True, "use_global_defender": False})
+        if kind == "c":
+            cfg["env"]["rewards"] = {"step": -1, "success": 100, "fail": -10}
         att = cfg["coordinator"]["agents"]["Attacker"]
         att["start_position"]["controlled_hosts"] = ["213.47.23.195", "192.168.2.2"]
-        att["max_steps"] = rng.choice([1, 2, 3]) if kind == "a" else 20
+        att["max_steps"] = rng.choice([1, 2, 3]) if kind in "ac" else 20
         att["goal"].update({"known_networks": [], "known_hosts": [], "controlled_hosts": [], "known_services": {}, "known_blocks": {},
                             "known_data": {"213.47.23.195": [["User1", "DataFromServer1"]]}})      # not reached by the script
         sess = Session(drv, rng, cfg, defender_tables, on_fail, stats, f"race-{kind}#{i}")
@@ -1244,6 +1279,23 @@ def directed_races(drv, rng, defender_tables, on_fail, stats, n):
                 for _ in range(att["max_steps"]):
                     sess.do(ev_game(sess, 0, scan()))            # the last one parks agent 0 at the end-of-episode barrier
                 sess.do_burst([leave, {"t": "connect", "c": 2}, ev_join(2, "Attacker")], gaps)
+            elif kind == "c":
+                # both play to their step limit (both finals delivered), 0 asks for the reset and waits, 1 leaves instead of
+                # asking: the departure completes the reset AND re-fires the episode-end bookkeeping; then the next episode
+                # is played to its end with a replacement - nobody may be paid twice or start the episode already paid
+                for _ in range(att["max_steps"]):
+                    sess.do(ev_game(sess, 0, scan()))
+                for _ in range(att["max_steps"]):
+                    sess.do(ev_game(sess, 1, scan()))
+                sess.do(ev_reset(0, rng.random() < 0.5))
+                sess.do(leave)
+                sess.do({"t": "connect", "c": 2})
+                sess.do(ev_join(2, "Attacker"))
+                for _ in range(att["max_steps"]):
+                    sess.do(ev_game(sess, 0, scan()))
+                for _ in range(att["max_steps"]):
+                    sess.do(ev_game(sess, 2, scan()))
+                sess.do(ev_game(sess, 0, scan()))      # one refused action after the end repeats the final reward
             else:
                 for _ in range(rng.choice([0, 2])):              # warm-up resets: the world is re-labelled before the race
                     sess.do(ev_reset(0)); sess.do(ev_reset(1))
@@ -1377,6 +1429,79 @@ def probe_unencodable_name(on_fail, stats):
                     {"kind": "config-session", "config": cfg})
     finally:
         sim.close()
+
+
+def probe_defender_rolls(on_fail, stats):
+    """C17 needs the detection roll to be a fresh draw for every check.  With the REAL random source: one attacker repeats
+    the same five-action episode three times; the sequences of values the defender draws in the episodes after the first and the
+    second reset must differ (identical sequences mean the generator is rewound by the reset)."""
+    cfg = default_config(env={"required_players": 1, "use_global_defender": True})
+    cfg["coordinator"]["agents"]["Attacker"]["max_steps"] = 60
+    cfg["coordinator"]["agents"]["Attacker"]["goal"]["known_data"] = {"213.47.23.195": [["User9", "NoSuchData"]]}
+    sim = Sim(cfg)
+    draws = []
+    orig = GD.random
+
+    def rec():
+        x = orig()
+        draws.append(x)
+        return x
+    GD.random = rec
+    try:
+        if sim.startup_error is not None or sim.server_cb is None:
+            return
+        sim.connect(0)
+        sim.send(0, J(ActionType.JoinGame, agent_info=AgentInfo("a", "Attacker")))
+        per_episode = []
+        scan = J(ActionType.ScanNetwork, source_host=IP("192.168.2.2"), target_network=Network("192.168.1.0", 24))
+        fs = J(ActionType.FindServices, source_host=IP("192.168.2.2"), target_host=IP("192.168.1.2"))
+        for ep in range(4):
+            n0 = len(draws)
+            for k in range(14):
+                if sim.coord._episode_ends.get(PEER(0)):
+                    break
+                sim.send(0, scan if k % 2 == 0 else fs)
+            per_episode.append(tuple(draws[n0:]))
+            sim.send(0, J(ActionType.ResetGame, request_trajectory=False))
+        sim.outputs()
+        stats["probe_defender_rolls"] = stats.get("probe_defender_rolls", 0) + 1
+        later = [e for e in per_episode[1:] if len(e) >= 2]
+        if len(later) >= 2 and len(set(later)) == 1:
+            on_fail({"C17"}, "rolls-replayed", f"with the real random source the defender draws the SAME values in every episode after a reset ({later[0][:3]}...): detection is not an independent draw per check",
+                    {"kind": "config-session", "config": cfg, "draws_per_episode": [list(e) for e in per_episode]})
+    finally:
+        GD.random = orig
+        sim.close()
+
+
+def directed_long_episode(drv, rng, defender_tables, on_fail, stats, n):
+    """One agent plays a long episode on the full scenario and asks for its trajectory: the RESET_DONE message is far larger than
+    any read buffer or log limit (about 100 kB) and must still be ONE well-formed document carrying the fresh view and the whole
+    trajectory (C15 framing, C16 content), judged like every session."""
+    for i in range(n):
+        cfg = gen_config(rng)
+        cfg["env"].update({"required_players": 1, "use_dynamic_addresses": False, "use_global_defender": False, "scenario": "scenario1"})
+        att = cfg["coordinator"]["agents"]["Attacker"]
+        att["start_position"]["controlled_hosts"] = ["213.47.23.195", "192.168.2.2"]
+        att["max_steps"] = 100
+        att["goal"].update({"known_networks": [], "known_hosts": [], "controlled_hosts": [], "known_services": {}, "known_blocks": {},
+                            "known_data": {"213.47.23.195": [["User9", "NoSuchData"]]}})
+        sess = Session(drv, rng, cfg, defender_tables, on_fail, stats, f"long#{i}")
+        try:
+            if sess.sim.startup_error is not None or sess.sim.server_cb is None:
+                continue
+            sess.do({"t": "connect", "c": 0})
+            sess.do({"t": "msg", "c": 0, "m": {"k": "join", "name": "agent0", "role": "Attacker"}, "raw_bytes": J(ActionType.JoinGame, agent_info=AgentInfo("agent0", "Attacker"))})
+            sc = Script(sess, rng, {"bad": 0.0, "leave": 0.0, "burst": 0.0, "reuse": 0.0, "early_reset": 0.0, "extra_connect": 0.0})
+            for _ in range(rng.choice([65, 80])):
+                if sess.broken or sess.coord._episode_ends.get(PEER(0)):
+                    break
+                a = sc.game_action(0)
+                sess.do({"t": "msg", "c": 0, "m": {"k": "game", "act": sess.akey(a)}, "raw_bytes": a.to_json().encode(), "roll": 0.9})
+            sess.do({"t": "msg", "c": 0, "m": {"k": "reset", "traj": True}, "raw_bytes": J(ActionType.ResetGame, request_trajectory=True)})
+            stats["long_episodes"] = stats.get("long_episodes", 0) + 1
+        finally:
+            sess.close()
 
 
 def _canon_outs(outs):
